@@ -73,6 +73,27 @@ fn main() {
         });
         std::process::exit(code);
     }
+    if args[0] == "show-family" {
+        // debugging aid: print every program of the statement families whose name starts with the given prefix,
+        // with C01's verdict on it
+        let prefix = args.get(1).cloned().unwrap_or_default();
+        let code = pool::on_fresh_thread(1, move || {
+            for (fam, mut p) in stmtfam::all_programs(false).into_iter().filter(|(f, _)| f.starts_with(&prefix)) {
+                let c = engines::c01::check_semantics(&mut p);
+                let v = match &c.verdict {
+                    engines::c01::Verdict::Ok { .. } => "ok".to_string(),
+                    engines::c01::Verdict::Skip(w) => format!("skip {}", w),
+                    engines::c01::Verdict::Fail { sig, detail, .. } => format!("FAIL {}\n{}", sig, detail),
+                };
+                println!("== {} => {}", fam, v);
+                if std::env::var("VERIF_VERBOSE").is_ok() {
+                    println!("{}", c.text);
+                }
+            }
+            0
+        });
+        std::process::exit(code);
+    }
     if args[0] == "corpus" {
         std::process::exit(pool::on_fresh_thread(1, || selftest::corpus()));
     }
